@@ -30,8 +30,11 @@ type c06Slot struct {
 	absent  *pb.Digest // digest of a blob that is nowhere
 	other   *pb.Digest // hash of a stored blob with another size
 	backend *pb.Digest // blob only the backend holds
+	tooBig  *pb.Digest // blob only the backend holds, larger than max_proxy_blob_size
 	data    []byte
 }
+
+const c06MaxProxy = 1000
 
 type c06Pool struct {
 	f     *fx
@@ -46,6 +49,7 @@ func newC06Pool(rep *vlib.Report, mode string, withBackend bool, n int) *c06Pool
 	if withBackend {
 		p.px = vlib.NewFakeProxy()
 		o.proxy = p.px
+		o.maxProxy = c06MaxProxy
 	}
 	p.f = newFx(o)
 	for i := 0; i < n; i++ {
@@ -73,6 +77,13 @@ func newC06Pool(rep *vlib.Report, mode string, withBackend bool, n int) *c06Pool
 			}
 			p.px.Set(cache.CAS, bd.Hash, st, bd.SizeBytes)
 			s.backend = bd
+			xd, xdata := mk("X", c06MaxProxy+1+i)
+			xst := xdata
+			if mode == "zstd" {
+				xst = vlib.EncodeCasBlob(xdata, 1<<20, true)
+			}
+			p.px.Set(cache.CAS, xd.Hash, xst, xd.SizeBytes)
+			s.tooBig = xd
 		}
 		p.slots = append(p.slots, s)
 	}
@@ -257,13 +268,15 @@ func (p *c06Pool) runCellOver(rep *vlib.Report, cfg string, sh c06Shape, assign 
 			return s.other
 		case 'B':
 			return s.backend
+		case 'X':
+			return s.tooBig
 		}
 		panic("bad assignment")
 	}
 	ar, tree, treeSlot := sh.build(pick)
 	allThere := !overMissing
 	for j := 0; j < len(assign); j++ {
-		if assign[j] == 'A' || assign[j] == 'S' {
+		if assign[j] == 'A' || assign[j] == 'S' || assign[j] == 'X' {
 			allThere = false
 		}
 	}
@@ -283,11 +296,11 @@ func (p *c06Pool) runCellOver(rep *vlib.Report, cfg string, sh c06Shape, assign 
 				st = vlib.EncodeCasBlob(tb, 1<<20, true)
 			}
 			p.px.Set(cache.CAS, td.Hash, st, td.SizeBytes)
-		case 'A':
-			// tree blob nowhere: whatever it refers to cannot matter
+		case 'A', 'X':
+			// tree blob nowhere (X: treated like absent for the tree digest itself)
 		}
 		ar.OutputDirectories[0].TreeDigest = td
-		if assign[treeSlot] == 'A' || assign[treeSlot] == 'S' {
+		if assign[treeSlot] == 'A' || assign[treeSlot] == 'S' || assign[treeSlot] == 'X' {
 			allThere = false
 		}
 	}
@@ -300,7 +313,7 @@ func (p *c06Pool) runCellOver(rep *vlib.Report, cfg string, sh c06Shape, assign 
 	// a control blob used just before: referenced local blobs must end up more recent
 	ans := p.ask(key)
 	id := fmt.Sprintf("%s shape=[%s] referenced=%s%s -> grpc=%s GET=%d HEAD=%d", cfg, sh.name, string(assign), overName, ans.grpc, ans.httpGet, ans.httpHead)
-	replay := map[string]interface{}{"cell": id, "legend": "P present, A absent, S stored with another size, B backend only; slots in the order files, tree digest, tree files, stdout, stderr"}
+	replay := map[string]interface{}{"cell": id, "legend": "P present, A absent, S stored with another size, B backend only, X backend only and larger than max_proxy_blob_size; slots in the order files, tree digest, tree files, stdout, stderr"}
 	wantG, wantH := "miss", 404
 	if allThere {
 		wantG, wantH = "hit", 200
@@ -384,7 +397,7 @@ func TestC06(t *testing.T) {
 	defer p.f.close()
 	alphabet := "PAS"
 	if withBackend {
-		alphabet = "PAB"
+		alphabet = "PABX"
 	}
 	maxK := 5
 	if vlib.Thorough() {
